@@ -84,7 +84,7 @@ type c15Scenario struct {
 
 func profC15Rev() *RevProfile {
 	p := defaultRevProfile("C15")
-	p.LenW = []int{0, 60, 40, 0, 0}
+	p.LenW = []int{8, 55, 37, 0, 0} // also a self-signed authority certificate that is its own root
 	p.OCSPCountW = []int{30, 55, 15, 0}
 	p.CRLCountW = []int{50, 40, 10, 0}
 	p.EntryW = []int{100, 0, 0}
@@ -152,6 +152,10 @@ func genC15(t *Tape) *c15Scenario {
 		w.TSADefect = 1 + t.Choose(nTSADefects-1)
 		if w.TSADefect == TDPathLen && len(w.Certs) < 3 {
 			w.TSADefect = TDCANoCertSign
+		}
+		if len(w.Certs) == 1 && (w.TSADefect == TDCANoCertSign || w.TSADefect == TDCANoKU) {
+			// a self-signed authority certificate has no separate CA to be defective
+			w.TSADefect = TDLeafKUExtra
 		}
 	}
 	rs.Worlds = []*World{w}
